@@ -26,7 +26,8 @@ func stampDefs() []*schema.StoreDef {
 	cells := &schema.StoreDef{Type: "cells", BasePath: []string{"stores"},
 		Fields: []schema.Field{{Name: "gen", Kind: schema.KI64}, {Name: "name", Kind: schema.KStr}, {Name: "roles", Kind: schema.KList}, {Name: "hub", Kind: schema.KStr, FK: "hubs"},
 			{Name: "hubs", Kind: schema.KLinks, FK: "hubs"}, {Name: "meta", Kind: schema.KMap},
-			{Name: "attrs", Kind: schema.KMap, Prefix: []string{"px", "py"}}}, // a map stored two buckets below the entity
+			{Name: "attrs", Kind: schema.KMap, Prefix: []string{"px", "py"}}, // a map stored two buckets below the entity
+			{Name: "blank", Kind: schema.KMap}}, // a map which never has entries
 		Unique: []schema.UniqueDef{{Field: "name"}},
 		SetIdx: []string{"roles"},
 		FKs:    []schema.FKDef{{Field: "hub", Target: "hubs", Kind: schema.FkConstraint, Nullable: false, Cascade: boltz.CascadeNone}},
@@ -51,6 +52,8 @@ type stampDb struct {
 	// index-driven cursor providers created once and shared by every reader and transaction (as a caller that keeps a
 	// provider per role list would): over two values (merged set) and over one (the index's own cursor)
 	anyOfPar0, onlyPar1 func(tx *bbolt.Tx, forward bool) ast.SetCursor
+	// role lists handed to FindMatching / FindMatchingAnyOf by every reader (one slice each, shared like a constant)
+	allOfRoles, anyOfRoles []string
 }
 
 func openStamp(path string) (*stampDb, error) {
@@ -59,7 +62,7 @@ func openStamp(path string) (*stampDb, error) {
 	if err != nil {
 		return nil, err
 	}
-	s := &stampDb{sc: sc, db: db, path: path}
+	s := &stampDb{sc: sc, db: db, path: path, allOfRoles: []string{"all", "par-0"}, anyOfRoles: []string{"par-1", "no-such-role"}}
 	cells := sc.St("cells")
 	s.anyOfPar0 = cells.Store.IteratorMatchingAnyOf(cells.SetIdx["roles"], []string{"par-0", "no-such-role"})
 	s.onlyPar1 = cells.Store.IteratorMatchingAnyOf(cells.SetIdx["roles"], []string{"par-1"})
@@ -101,7 +104,7 @@ func (s *stampDb) writeStateVia(g int64, batch bool) error {
 		for i := 0; i < stampCells; i++ {
 			id := cellId(i)
 			e := &schema.Ent{Id: id, Typ: "cells", V: map[string]any{"gen": g, "name": cellName(i, g), "roles": []string{genRole(g), "all", parRole(i, g)}, "hub": cellHub(i, g),
-				"hubs": []string{cellHub(i, g)}, "meta": map[string]any{"g": g, "tag": genRole(g)},
+				"hubs": []string{cellHub(i, g)}, "blank": map[string]any{}, "meta": map[string]any{"g": g, "tag": genRole(g)},
 				"attrs": map[string]any{"net": map[string]any{"zone": genRole(g)}, "hw": map[string]any{"zone": "hz"}}}}
 			var err error
 			if cells.Store.IsEntityPresent(tx, id) {
@@ -149,6 +152,13 @@ func (s *stampDb) verifyTx(tx *bbolt.Tx, deep bool) (int64, []string) {
 		if err != nil || !found {
 			addf("cell %s missing in generation %d (err=%v)", id, g, err)
 			continue
+		}
+		// what a caller does with an entity it loaded is its own business: here it puts an entry into the (empty) map of
+		// its copy, as one preparing an update would. Every load starts with the map as stored: empty
+		if bm, _ := e.V["blank"].(map[string]any); len(bm) != 0 {
+			addf("cell %s was loaded with entries in a map that is stored empty: %v", id, bm)
+		} else if bm != nil {
+			bm["scratch"] = g
 		}
 		if eg, _ := e.V["gen"].(int64); eg != g {
 			addf("cell %s has generation %d, cell c0 has %d", id, eg, g)
@@ -233,6 +243,24 @@ func (s *stampDb) verifyTx(tx *bbolt.Tx, deep bool) (int64, []string) {
 				if err != nil || fmt.Sprint(ids) != fmt.Sprint(want) {
 					addf("shared IteratorMatchingAnyOf provider %d with %q = %q err=%v, expected %q (generation %d)", pi, text, ids, err, want, g)
 				}
+			}
+		}
+		{
+			var par0, par1 []string
+			for i := 0; i < stampCells; i++ {
+				if parRole(i, g) == "par-0" {
+					par0 = append(par0, cellId(i))
+				} else {
+					par1 = append(par1, cellId(i))
+				}
+			}
+			if got := cells.Store.FindMatching(tx, cells.SetIdx["roles"], s.allOfRoles); fmt.Sprint(got) != fmt.Sprint(par0) {
+				addf("FindMatching(%q) = %q, expected %q (generation %d)", s.allOfRoles, got, par0, g)
+			}
+			got := cells.Store.FindMatchingAnyOf(tx, cells.SetIdx["roles"], s.anyOfRoles)
+			sort.Strings(got)
+			if fmt.Sprint(got) != fmt.Sprint(par1) {
+				addf("FindMatchingAnyOf(%q) = %q, expected %q (generation %d)", s.anyOfRoles, got, par1, g)
 			}
 		}
 		it := idsOf(cells.Store.IterateIds(tx, ast.BoolNodeTrue))
